@@ -115,6 +115,8 @@ def confirm_one(ch):
     meta.update({"written_by": "independent sub-agent given only the property text and a scratch worktree", "round": rnd,
                  "source_patch": os.path.relpath(patch, VERIF), "source_patch_sha": sha, "confirmed_at_repo_head": head(), "what_i_ran": ran})
     meta.pop("check_results", None)
+    if old.get("not_kept"):
+        meta["not_kept"] = old["not_kept"]          # a change superseded by a later fix: stays recorded as not kept
     json.dump(meta, open(os.path.join(out, "meta.json"), "w"), indent=1)
     return "%s-%s %s: confirmed=%s (tests: %s; demo %s -> %s)" % (pid, label, kind, ran["confirmed"], ran.get("test_suite_with_change"),
                                                                   ran.get("demo_unchanged_exit"), ran.get("demo_changed_exit"))
